@@ -1206,7 +1206,7 @@ def qualifier_name(cls_short=None):
 def name_store(cls_short=None):
     """C07: names containing dots, spaces, brackets are stored and rendered as one identifier"""
     from . import Field, Index, Q, Table, pk
-    for nm in ("my.db", "a b", "x(y)", "UPPER lower", " lead"):
+    for nm in ("my.db", "a b", "x(y)", "UPPER lower", " lead", "*", "?", "%s"):
         cases = [("table", Table(nm)), ("schema", Table("t", schema=nm)), ("schema list", Table("t", schema=[nm, "s2"])),
                  ("field", Field(nm)), ("alias", Table("t").as_(nm)), ("index", Index(nm)), ("column", Q.Column(nm, "INT")),
                  ("database", Table("t", schema=Q.Database(nm).s))]
